@@ -28,9 +28,10 @@ EXPLANATION = (
     '(5) dependency completeness of the path-error recompute set in updateScores: the fields computePathError reads of the node itself and of its '
     'parents are derived from its body (getters resolved); whenever a recompute call on node X reports a change and writes a field of the first kind, X '
     'itself is scheduled, and for a field of the second kind every child of X is scheduled, on every path on which the change is reported; every '
-    'element of the recompute set is handed to the recomputation.')
+    'element of the recompute set is handed to the recomputation.'
+    ' Added later; (7) the guard of the parent recursion in updateScores holds for (start node, nothing changed).')
 UNDECIDED = ('that scores are at the fixed point of the negamax / path-error / expansion-cost equations for every history (value-level '
-             'over a DAG); the upward (negamax / expansion cost) scheduling with its updateThis/updateChildren/updateParents flags is not decided.')
+             'over a DAG); of the upward (negamax / expansion cost) scheduling only the start of the walk (C19.7) is decided, not the updateThis/updateChildren flags.')
 ASSUMPTIONS = ['Serializer::serialize / deSerialize are inverse for equal type lists (utility code outside this property)']
 
 NODE = 'BookBuild::BookNode'
@@ -50,6 +51,7 @@ def run(fb, rep, tier):
     c4_set_ordering(fb, rep)
     c5_recompute_dependencies(fb, rep)
     c6_depth_propagation(fb, rep)
+    c7_parents_of_start(fb, rep)
 
 
 def c4_set_ordering(fb, rep):
@@ -599,3 +601,93 @@ def c6_depth_propagation(fb, rep):
         ins = [(b, i) for b, i, e in ap_.events() if e.get('k') == 'call' and cname(e).split('::')[-1] in ('insert', 'emplace') and _node_field(_strip(e.get('recv')) or {}) == 'parents']
         ok = bool(ins) and all(ap_.path_avoiding(pos, R.at_exit, R.is_named_call(nm)) is None for pos in ins)
         rep.ob(clause, 'K2 must-call', 'addParent relaxes the depth after inserting the parent link on every path', ok, ap_.where, '%d insertion(s)' % len(ins), ap_.sname)
+
+
+# ---------------------------------------------------------------------------------------------------------------
+# C19.7  the node updateScores is called on always has its parents recomputed
+
+def c7_parents_of_start(fb, rep):
+    """K4: a parent's negamax score and expansion costs are functions of the *set* of its children and of their values.
+    updateScores() is called on a node when its own data changed - and also right after the node was linked into the graph
+    (addPosToBook), when nothing of the node changes but its parents have a new child.  So the walk towards the root must
+    start unconditionally at the node updateScores was called on; only further up may it stop where nothing changed.  The
+    guard of the parent recursion is evaluated for (the start node, "nothing changed"): it must let the recursion happen."""
+    clause = 'C19.7'
+    cands = [f for f in fb.funcs.values() if f.has_cfg and f.sname == NODE + '::updateScores']
+    if rep.need(clause, cands, NODE + '::updateScores') is None:
+        return
+    f = cands[0]
+    n = 0
+    for g in fb.lambdas_in(f):
+        params = g.d.get('params', [])
+        # the change flag: local initialised from computeNegaMax
+        flag = None
+        for _, _, e in g.events():
+            if e.get('k') == 'decl':
+                for v in e.get('vars', []):
+                    if any(x.get('k') == 'call' and cname(x) == NODE + '::computeNegaMax' for x in walk(v.get('init') or {})):
+                        flag = v['id']
+        if flag is None:
+            continue
+        node_id = params[0].get('id') if params else None
+        for b, i, e in g.events():
+            # recursion into a parent: a call of the enclosing std::function whose first argument comes from the parents container
+            if not (e.get('k') == 'call' and e.get('op') == '()' and e.get('args')):
+                continue
+            a0 = _strip(e['args'][0])
+            src = a0
+            hops = 0
+            from_parents = False
+            while isinstance(src, dict) and hops < 10:
+                hops += 1
+                if src.get('k') == 'var':
+                    d = _decl_of(g, src.get('id'))
+                    if d is None:
+                        break
+                    src = _strip(d.get('init'))
+                elif src.get('k') == 'mem':
+                    if _node_field(src) == 'parents':
+                        from_parents = True
+                        break
+                    src = _strip(src.get('b'))
+                elif src.get('k') == 'call' and src.get('recv') is not None:
+                    src = _strip(src.get('recv'))
+                elif src.get('k') == 'ctor' and src.get('args'):
+                    src = _strip(src['args'][0])
+                else:
+                    break
+            if not from_parents:
+                continue
+            n += 1
+            guards = _guards_after(g, g.entry, b)
+            bool_params = [p_.get('id') for p_ in params[1:]]
+
+            def tv(t, is_start):
+                t = _strip(t)
+                if not isinstance(t, dict):
+                    return None
+                if t.get('k') == 'var':
+                    if t.get('id') == flag:
+                        return False              # nothing changed
+                    if t.get('id') in bool_params:
+                        return True               # the walk towards the root is requested
+                    return None
+                if t.get('k') == 'un' and t.get('op') == '!':
+                    x = tv(t.get('e'), is_start)
+                    return None if x is None else (not x)
+                if t.get('k') == 'bin' and t.get('op') in ('&&', '||'):
+                    a, b_ = tv(t.get('l'), is_start), tv(t.get('r'), is_start)
+                    if t['op'] == '&&':
+                        return False if (a is False or b_ is False) else (True if (a is True and b_ is True) else None)
+                    return True if (a is True or b_ is True) else (False if (a is False and b_ is False) else None)
+                if t.get('k') == 'bin' and t.get('op') in ('==', '!='):
+                    l, r = _strip(t.get('l')), _strip(t.get('r'))
+                    ids = {(l or {}).get('id'), (r or {}).get('id')}
+                    if node_id in ids and len(ids) == 2:
+                        # the current node compared with a captured node pointer: the start node
+                        return is_start if t['op'] == '==' else (not is_start)
+                return None
+            blocked = [show(c, 60) for c, side in guards if tv(c, True) is not None and tv(c, True) != side]
+            rep.ob(clause, 'K4 guard', 'updateScores: the parents of the node it was called on are recomputed even when the node itself did not change (they may have gained it as a child)',
+                   not blocked, R.site(g, e), 'guards of the parent recursion: %s; false for (start node, unchanged): %s' % ([('' if s_ else '!') + show(c, 60) for c, s_ in guards], blocked), f.sname)
+    rep.floor(clause, 'parent recursions in updateScores', n, 1)
